@@ -27,7 +27,7 @@ RULE = (
 )
 ASSUMPTIONS = ["no nested histories and no rename records (the statement's precondition)", "default ignore patterns"]
 BUDGET = {"quick": (220, 4), "thorough": (64000, 16)}
-REQUIRED = ["format_change", "failed_entry", "sf_generation", "pl_ok", "pl_altered", "pl_new_file"]
+REQUIRED = ["format_change", "failed_entry", "sf_generation", "pl_ok", "pl_altered", "pl_new_file", "pl_relative_path"]
 
 CFG = {
     "kinds": ["create"] * 5 + ["create_sf"] * 2 + ["put_new", "overwrite", "overwrite", "restore"],
@@ -135,6 +135,12 @@ def run_case(scn, ctx):
         Mi = [f for f in recorded if f not in w.files]
         res = w.verify(top, flags=["-pl", pl])
         require(res.exc is None, "pl-no-abort", res.brief(), res)
+        # the same with the packing list (and the root) named relative to a working directory that is not the root
+        cwd = {0: w.base, 1: os.path.dirname(pl), 2: w.abs("_flat")}[scn["alter"] % 3]
+        relpl = os.path.relpath(pl, cwd)
+        res2 = w.run("verify", [w.abs(top), "-pl", relpl if not relpl.startswith("-") else "./" + relpl], cwd=cwd)
+        require(res2.exc is None and res2.exit_code == res.exit_code, "pl-relative", "verify -pl %r from %r: %s; with the absolute path: %s" % (relpl, w.rel(cwd), res2.brief(), res.exit_code), res2)
+        ctx.event("pl_relative_path")
         wantcode = 11 if A else (21 if N else (10 if Mi else 0))
         require(res.exit_code == wantcode, "pl-exit", "verify -pl: %s, expected %d (altered %s, unrecorded %s)\n%s" % (res.brief(), wantcode, A[:3], N[:3], res.output[-400:]), res)
         feats.add({0: "pl_ok", 11: "pl_altered", 21: "pl_new_file", 10: "pl_missing"}[wantcode])
